@@ -136,6 +136,15 @@ def regenerate(build):
     return d, changed
 
 
+def dump_only(build):
+    """The table dump of `build` (no regeneration of Gen/*): for generators that only need the vocabulary."""
+    dumper = build.harness('dump_tables.c')
+    r = run([dumper], env=build.env(), stderr=subprocess.PIPE)
+    if r.returncode != 0:
+        raise BuildError('dump_tables failed: ' + (r.stderr or '')[-2000:])
+    return json.loads(r.stdout)
+
+
 def lake_build(targets, timeout=3000):
     """lake build the given module targets; returns (ok, output)."""
     t0 = time.time()
